@@ -16,7 +16,7 @@ RULE = (
     "every binary image of the declared grid shapes x every periodicity mask (Cartesian) / both periodic_z settings (cylindrical); "
     "reference labelling by an independent union-find carrying integer period offsets; non-trivial = image has at least one "
     "component; distinctness by (grid spec, image bits)"
-    " plus all bodies of revolution over a width alphabet on 8x6 / 8x8 cylindrical grids, UnitGrid objects, bool / int8 / float32 storage of the binary image at the public entry point, and alternating-periodicity histories (every 3x3 and 2x2x2 image under two masks alternately, fresh fork per chunk)"
+    " plus all bodies of revolution over a width alphabet on 8x6 / 8x8 cylindrical grids, UnitGrid objects, bool / int8 / float32 storage of the binary image at the public entry point, and alternating-periodicity histories (every 3x3 and 2x2x2 image under two masks alternately, fresh fork per chunk) and shared-grid-object histories (every image of a 3x4 cylindrical / anisotropic 3x3 grid analysed in sequence on ONE grid object)"
 )
 ASSUMPTIONS = [
     "exhaustive only up to the declared shapes (<= 20 cells); larger images are a fixed structured catalogue, not exhaustive",
@@ -84,6 +84,12 @@ def blocks(tier, seed):
         for a in range(len(masks)):
             for b in range(a + 1, len(masks)):
                 out.append({"alternate": [list(masks[a]), list(masks[b])], "shape": list(shape)})
+    # histories: the caller keeps ONE grid object and analyses image after image on it (all images of the grid, fresh fork per chunk)
+    for pz in (False, True):
+        for part in range(8):
+            out.append({"shared": {"kind": "cyl", "shape": [3, 4], "R": 3.0, "z": [-1.0, 2.2], "periodic_z": pz}, "part": part})
+    for mask in ((True, False), (True, True)):
+        out.append({"shared": cart((3, 3), mask, dx=[1.6, 0.5], origin=[-3.7, 2.25])})
     # catalogue of larger structured images (complement; enumerated completely, but not an exhaustive image space)
     for mask in itertools.product((False, True), repeat=2):
         out.append({"grid": cart((12, 12), mask), "catalogue": seed % 4, "prefix": [], "via_field": True})
@@ -126,6 +132,15 @@ def cases(block):
         for i in range(0, len(seq), 64):
             yield {"sequence": seq[i:i + 64]}
             yield {"sequence": seq[i + 1:i + 65]}
+        return
+    if "shared" in block:
+        g = block["shared"]
+        n = int(np.prod(g["shape"]))
+        seq = [{"grid": g, "bits": "".join(map(str, bits)), "via_field": False, "share_grid": True} for bits in itertools.product((0, 1), repeat=n)]
+        if "part" in block:
+            seq = seq[block["part"] * len(seq) // 8:(block["part"] + 1) * len(seq) // 8]
+        for i in range(0, len(seq), 64):
+            yield {"sequence": seq[i:i + 64], "shared": True}
         return
     g = block["grid"]
     if "catalogue" in block:
@@ -181,12 +196,12 @@ def run_case(case, ctx):
     if "sequence" in case:
         from mcx import core
 
-        ctx.count("alternating-mask-sequences")
+        ctx.count("shared-grid-object-sequences" if case.get("shared") else "alternating-mask-sequences")
         return core.run_sequence_in_fork(run_case, case["sequence"], ctx, tag={"history": True})
     g = case["grid"]
     shape = tuple(g["shape"])
     img = np.array([c == "1" for c in case["bits"]], bool).reshape(shape)
-    grid = geom.make_grid(g)
+    grid = geom.make_grid(g, share=bool(case.get("share_grid")))
     cyl = g["kind"] == "cyl"
     periodic = [False, g["periodic_z"]] if cyl else g["periodic"]
     tags = {"grid": g["kind"], "periodic": periodic}
@@ -395,4 +410,4 @@ def run_case(case, ctx):
 
 def expected_positive(tier):
     return ["C02.bijection", "C02.disjoint", "C02.omitted", "C02.cyl-empty", "C02.inbox", "C02.entry-point", "winding-components",
-            "components-crossing-a-periodic-boundary", "corner-crossing-components", "omitted-components", "cyl-off-axis-only", "multi-component-images", "cyl-profile-images", "alternating-mask-sequences"]
+            "components-crossing-a-periodic-boundary", "corner-crossing-components", "omitted-components", "cyl-off-axis-only", "multi-component-images", "cyl-profile-images", "alternating-mask-sequences", "shared-grid-object-sequences"]
